@@ -700,7 +700,23 @@ func (r *runner) deliverBlob(blob []byte, class string) error {
 	before := r.dump()
 	pend := r.pendingSet()
 	hash := crypto.Keccak256Hash(blob)
-	committed, h, err := r.ts.ProcessNodeData(blob)
+	// through trieSync.process -> processNodeData; the outcome of Sync.Process is read
+	// back from process()'s counters and from the growth of the membatch
+	_, order0 := r.sched.VerifC19Dump()
+	n, dup, unexp, err := r.ts.ProcessNodeData(blob)
+	_, order1 := r.sched.VerifC19Dump()
+	committed := len(order1) > len(order0)
+	h := hash
+	switch {
+	case err != nil:
+	case n == 1:
+	case dup == 1:
+		err = trie.ErrAlreadyProcessed
+	case unexp == 1:
+		err = trie.ErrNotRequested
+	default:
+		panic("process() neither delivered, nor counted, nor failed")
+	}
 	bid := r.it.B(blob)
 	r.ops = append(r.ops, fmt.Sprintf("XDeliver %d %d %s %d", bid, r.it.H(h), vf.Bool(committed), errCode(err, blob)))
 	if err == nil || err == trie.ErrAlreadyProcessed {
